@@ -152,6 +152,7 @@ theorem doLoads_imported (cfg : Cfg) (fs : FS) (rec : ParseFn)
             · have h3 := ih _ _ h
               exact h3
           · exact ih _ _ h
+          · exact ih _ _ h
 
 /-- The imported set only grows, and a file is never entered twice. -/
 theorem parseOne_imported (cfg : Cfg) (fs : FS) (fuel : Nat) (stack : List APath) (file spelled : APath) (st : PState)
@@ -278,6 +279,7 @@ theorem doLoads_fuel (cfg : Cfg) (fs : FS) (rec : ParseFn) (n : Nat)
           · split
             · intro h; cases h
             · exact ih _ _ hst
+          · exact ih _ _ hst
           · exact ih _ _ hst
 
 /-- **Termination.** The recursion over imports never runs out of fuel as long as the fuel exceeds
